@@ -263,10 +263,8 @@ func (tree *lshTree) remove(node *lshNode, docid uint64, vector []float64, lengt
 				break
 			}
 		}
-		// If the node is empty, return nil to remove it
-		if len(node.ids) == 0 {
-			return nil
-		}
+		// An emptied leaf stays in the tree (as an empty leaf): insert and search
+		// dereference every child, so a nil child would crash the next operation.
 		return node
 	}
 
